@@ -95,6 +95,46 @@ fn line(kind: &str, d: usize, init: &[usize], trans: &[Vec<usize>], emit: &[Vec<
     )
 }
 
+/// last column of the exact Viterbi matrix *without* end term (numerators; `d <= 12`, `T <= 10`: below 2^80)
+fn last_column(init: &[usize], trans: &[Vec<usize>], emit: &[Vec<usize>], obs: &[usize]) -> Vec<u128> {
+    let s = init.len();
+    let mut col: Vec<u128> = (0..s).map(|q| (init[q] * emit[q][obs[0]]) as u128).collect();
+    for &o in &obs[1..] {
+        col = (0..s)
+            .map(|j| (0..s).map(|k| col[k] * trans[k][j] as u128).max().unwrap() * emit[j][o] as u128)
+            .collect();
+    }
+    col
+}
+
+/// An end vector under which **no** path that is optimal without the end term stays optimal: the states whose
+/// last-column value is the maximum get a small end weight, a state with a smaller non-zero value gets the full
+/// weight.  `None` when the last column has fewer than two distinct non-zero values (nothing to flip).
+/// This is the regression guard for the repaired defect C14-viterbi-ignores-end and for any variant that applies the end
+/// term at the wrong place (first column, after the arg-max, …).
+fn flipping_end(rng: &mut Rng, d: usize, col: &[u128]) -> Option<Vec<usize>> {
+    let vmax = *col.iter().max().unwrap();
+    let second = col.iter().cloned().filter(|&v| v > 0 && v < vmax).max()?;
+    // largest k with k * vmax < d * second  (k < d because second < vmax)
+    let kmax = ((d as u128 * second - 1) / vmax) as usize;
+    let k = if rng.chance(1, 3) { kmax } else { rng.below(kmax + 1) };
+    let runner: Vec<usize> = (0..col.len()).filter(|&q| col[q] == second).collect();
+    let fav = *rng.pick(&runner);
+    Some(
+        (0..col.len())
+            .map(|q| {
+                if col[q] == vmax {
+                    k
+                } else if q == fav {
+                    d
+                } else {
+                    rng.below(d + 1)
+                }
+            })
+            .collect(),
+    )
+}
+
 fn random_case(rng: &mut Rng, tmax: usize) -> String {
     let s = *rng.pick(&[1usize, 2, 2, 2, 2, 3, 3, 3, 4, 4]);
     let m = *rng.pick(&[1usize, 2, 2, 2, 3, 3, 4]);
@@ -134,10 +174,48 @@ fn random_case(rng: &mut Rng, tmax: usize) -> String {
     line(kind, d, &init, &trans, &emit, end.as_deref(), &obs)
 }
 
+/// a model with an end vector that changes the arg-max (see `flipping_end`); falls back to `random_case`
+/// after a few attempts (e.g. when one state or d = 1 was drawn)
+fn flip_case(rng: &mut Rng, tmax: usize) -> String {
+    for _ in 0..20 {
+        let s = *rng.pick(&[2usize, 2, 2, 3, 3, 4]);
+        let m = *rng.pick(&[1usize, 2, 2, 3, 4]);
+        let d = *rng.pick(&[2usize, 3, 4, 5, 6, 8, 10, 10, 12]);
+        let t = match rng.below(10) {
+            0 | 1 => 1,
+            2 | 3 => 2,
+            4 => 3,
+            _ => 1 + rng.below(tmax),
+        };
+        // rows with several non-zero cells, so that more than one state is reachable at the end
+        let dense = |rng: &mut Rng, n: usize| -> Vec<usize> {
+            if rng.chance(1, 3) {
+                row(rng, n, d)
+            } else {
+                let mut r = vec![0; n];
+                for _ in 0..d {
+                    r[rng.below(n)] += 1;
+                }
+                r
+            }
+        };
+        let init = dense(rng, s);
+        let trans: Vec<Vec<usize>> = (0..s).map(|_| dense(rng, s)).collect();
+        let emit: Vec<Vec<usize>> = (0..s).map(|_| dense(rng, m)).collect();
+        let obs: Vec<usize> = (0..t).map(|_| rng.below(m)).collect();
+        let col = last_column(&init, &trans, &emit, &obs);
+        if let Some(end) = flipping_end(rng, d, &col) {
+            return line("optend", d, &init, &trans, &emit, Some(&end), &obs);
+        }
+    }
+    random_case(rng, tmax)
+}
+
 pub fn gen(tier: &str, rng: &mut Rng, out: &mut Vec<String>) {
     let (n, tmax) = if tier == "thorough" { (80_000, 10) } else { (3_000, 8) };
-    for _ in 0..n {
-        out.push(random_case(rng, tmax));
+    for i in 0..n {
+        // every fifth case: an end vector that changes the arg-max
+        out.push(if i % 5 == 4 { flip_case(rng, tmax) } else { random_case(rng, tmax) });
     }
     if tier == "thorough" {
         // exhaustive small scope: every 0/1-valued model with S = M = 2 and every observation sequence of length <= 3,
